@@ -24,6 +24,10 @@ string of n characters of a fixed pattern, ``{"i": n}`` an n-digit int, scalars 
   S  every scalar of a list of special values (floats needing 17 digits, huge ints, signed zeros, strings
      that look like syntax) alone, as the only list element, as a dict value and as a dict key
   B4 very long flat containers (one-line form 450..1300 characters): must come out wrapped
+  Lz lazy results: two results of ONE printer object (fresh instance / module-level pp after reload) for every
+     ordered pair of pool objects, colored or no_color each; "create result" and "render result" are separate
+     operations in every order (create both then render in either order, render whole or by line, both iterated
+     side by side): each result must read back as ITS object
   H  histories on ONE printer object (E2): every sequence of <= 3 renderings, each colored or no_color, of an
      object of a small pool holding every constant / leaf type, on a fresh PrettyPrinter (JSON mode, Python
      mode) and on the module-level ``ak.ppobj.pp`` after ``importlib.reload(ak.ppobj)``; every rendering of
@@ -87,7 +91,8 @@ REQUIRED_FEATURES = [
     "thr200:199", "thr200:200", "thr200:201", "thr150:149", "thr150:150", "thr150:151",
     "sweep:list-element", "sweep:dict-value", "sweep:dict-key", "sweep:count",
     "elem:longer-than-line", "long:must-wrap", "scalar:special",
-    "shared:same-container-object-twice", "printer:fresh-instance", "printer:module-level-pp", "printer-reuse:colored-then-no-color",
+    "lazy:two-results-of-one-printer", "lazy:second-created-before-first-rendered",
+    "lazy:results-iterated-side-by-side", "shared:same-container-object-twice", "printer:fresh-instance", "printer:module-level-pp", "printer-reuse:colored-then-no-color",
     "printer-reuse:same-constant-colored-then-no-color", "printer-reuse:no-color-then-colored",
     "printer-reuse:same-kind-twice",
 ]
@@ -542,6 +547,81 @@ def check_history(kind, steps, acc):
     return None, None, feats
 
 
+# Lazy results: a result object is created now and rendered later; another result of the same printer is created
+# (and maybe rendered) in between.  Every result must read back as ITS object.
+L_SCHEDULES = [("C1 C2 R1 R2", "whole"), ("C1 C2 R1 R2", "lines"), ("C1 C2 R2 R1", "whole"), ("C1 C2 R2 R1", "lines"),
+               ("C1 R1 C2 R2", "whole"), ("C1 R1 C2 R2", "lines"), ("C1 C2 ZIP", "lines")]
+
+
+def check_lazy(spec, acc):
+    kind = spec["printer"]
+    mode = "json" if kind == "json" else "py"
+    items = {"1": spec["a"], "2": spec["b"]}
+    objs = {k: build(v["spec"]) for k, v in items.items()}
+    results, texts = {}, {}
+
+    def render(k, lines):
+        colored = bool(items[k]["colored"])
+        r = results[k]
+        if lines:
+            return "\n".join((ln.plain_text() if colored else str(ln)) for ln in r)
+        return r.plain_text() if colored else str(r)
+    try:
+        printer = _history_printer(kind)
+        for op in spec["schedule"].split():
+            acc.trans(1)
+            if op[0] == "C":
+                it = items[op[1]]
+                results[op[1]] = printer(objs[op[1]], **({} if it["colored"] else {"no_color": True}))
+            elif op == "ZIP":
+                out = {"1": [], "2": []}
+                its = {k: iter(results[k]) for k in ("1", "2")}
+                live = ["1", "2"]
+                while live:
+                    for k in list(live):
+                        try:
+                            ln = next(its[k])
+                            out[k].append(ln.plain_text() if items[k]["colored"] else str(ln))
+                        except StopIteration:
+                            live.remove(k)
+                texts = {k: "\n".join(v) for k, v in out.items()}
+            else:
+                texts[op[1]] = render(op[1], spec["render"] == "lines")
+    except Exception as e:  # noqa
+        return (f"lazy-result:raises:{type(e).__name__}", f"raised {type(e).__name__}: {e}", repr(e), "text")
+    for k in ("1", "2"):
+        v = judge(objs[k], mode, texts[k])
+        if v is not None and judge(objs["2" if k == "1" else "1"], mode, texts[k]) is None:
+            v = ("renders-the-other-result",) + v[1:]       # one class, whatever the two objects are
+        if v is not None:
+            return (f"lazy-result:{spec['schedule'].replace(' ', '-')}:result-{k}:{v[0]}",
+                    f"result {k} of '{spec['schedule']}' on one printer object: {v[1]}", v[2], v[3])
+    return None
+
+
+def _run_L(shard, tier, acc):
+    _, kind = shard
+    n = 0
+    for ia, ib, ca, cb, (sched, rend) in itertools.product(range(len(H_POOL)), range(len(H_POOL)), (0, 1), (0, 1),
+                                                          L_SCHEDULES):
+        spec = {"printer": kind, "a": {"colored": ca, "spec": H_POOL[ia]}, "b": {"colored": cb, "spec": H_POOL[ib]},
+                "schedule": sched, "render": rend}
+        case = {"mode": "json" if kind == "json" else "py", "lazy": spec}
+        v = check_lazy(spec, acc)
+        feats = {"lazy:two-results-of-one-printer", "printer:module-level-pp" if kind == "pp" else "printer:fresh-instance"}
+        if sched != "C1 R1 C2 R2":
+            feats.add("lazy:second-created-before-first-rendered")
+        if sched.endswith("ZIP"):
+            feats.add("lazy:results-iterated-side-by-side")
+        acc.case(nontrivial=sched != "C1 R1 C2 R2", features=sorted(feats),
+                 outcome=("ok:lazy:" + sched) if v is None else v[0], states=4, traces=2)
+        if n % 499 == 0:
+            acc.sample(case)
+        n += 1
+        _report(acc, v, case)
+    acc.expired()
+
+
 def _run_H(shard, tier, acc):
     _, kind, first = shard
     n = 0
@@ -732,6 +812,7 @@ def shards(tier):
     sh.append(("B4",))
     sh.append(("S",))
     for kind in H_PRINTERS:
+        sh.append(("Lz", kind))
         for first in range(len(H_STEPS)):
             sh.append(("H", kind, first))
     return sh
@@ -1019,10 +1100,16 @@ def run_shard(shard, tier, seed, acc):
         return _run_S(p, acc)
     if fam == "H":
         return _run_H(shard, tier, acc)
+    if fam == "Lz":
+        return _run_L(shard, tier, acc)
     raise ValueError(shard)
 
 
 def replay(case, acc):
+    if "lazy" in case:
+        _report(acc, check_lazy(case["lazy"], acc), case)
+        acc.case()
+        return
     if "history" in case:
         v, _, _ = check_history(case["history"]["printer"], case["history"]["steps"], acc)
         _report(acc, v, case)
